@@ -23,7 +23,8 @@ REPO = os.environ.get("VCHECK_REPO", "/repo")
 DEPS = os.path.join(VERIF, ".deps")
 WORK = os.path.join(VERIF, ".work")
 REPLAYS = os.path.join(VERIF, "replays")
-EVIDENCE = os.path.join(VERIF, "evidence")
+# evidence of runs against another checkout (VCHECK_REPO) never overwrites the evidence of /repo
+EVIDENCE = os.path.join(VERIF, "evidence") if os.path.realpath(REPO) == "/repo" else os.path.join(WORK, "evidence-other-repo")
 KNOWN_FILE = os.path.join(VERIF, "KNOWN_FINDINGS.txt")
 WHEELS = "/opt/veriftools/wheels"
 NSHARDS = int(os.environ.get("VCHECK_SHARDS", "16"))
